@@ -35,34 +35,47 @@ func (s *LabelFilterPlanner) Process(ctx *shared.PlannerContext) (sql.ISelect, e
 
 func (s *LabelFilterPlanner) makeSqlCond(ctx *shared.PlannerContext,
 	expr *logql_parser.LabelFilter) (sql.SQLCondition, error) {
-	var (
-		leftSide  sql.SQLCondition
-		rightSide sql.SQLCondition
-		err       error
-	)
-	if expr.Head.SimpleHead != nil {
-		leftSide, err = s.makeSimpleSqlCond(ctx, expr.Head.SimpleHead)
-	} else {
-		leftSide, err = s.makeSqlCond(ctx, expr.Head.ComplexHead)
+	// The grammar hands an unparenthesised chain over right-nested (Head Op Tail). LogQL gives `and` precedence
+	// over `or`, both left-associative: the chain is a disjunction of conjunctions of its heads.
+	var orTerms, andTerms []sql.SQLCondition
+	for node := expr; node != nil; node = node.Tail {
+		var (
+			cond sql.SQLCondition
+			err  error
+		)
+		if node.Head.SimpleHead != nil {
+			cond, err = s.makeSimpleSqlCond(ctx, node.Head.SimpleHead)
+		} else {
+			cond, err = s.makeSqlCond(ctx, node.Head.ComplexHead)
+		}
+		if err != nil {
+			return nil, err
+		}
+		andTerms = append(andTerms, cond)
+		if node.Tail == nil {
+			break
+		}
+		switch node.Op {
+		case "and":
+		case "or":
+			orTerms = append(orTerms, joinAnd(andTerms))
+			andTerms = nil
+		default:
+			return nil, fmt.Errorf("illegal expression " + expr.String())
+		}
 	}
-	if err != nil {
-		return nil, err
+	orTerms = append(orTerms, joinAnd(andTerms))
+	if len(orTerms) == 1 {
+		return orTerms[0], nil
 	}
-	if expr.Tail == nil {
-		return leftSide, nil
-	}
+	return sql.Or(orTerms...), nil
+}
 
-	rightSide, err = s.makeSqlCond(ctx, expr.Tail)
-	if err != nil {
-		return nil, err
+func joinAnd(terms []sql.SQLCondition) sql.SQLCondition {
+	if len(terms) == 1 {
+		return terms[0]
 	}
-	switch expr.Op {
-	case "and":
-		return sql.And(leftSide, rightSide), nil
-	case "or":
-		return sql.Or(leftSide, rightSide), nil
-	}
-	return nil, fmt.Errorf("illegal expression " + expr.String())
+	return sql.And(terms...)
 }
 
 func (s *LabelFilterPlanner) makeSimpleSqlCond(ctx *shared.PlannerContext,
